@@ -147,7 +147,7 @@ def eval_pair(case):
 def campaigns(tier):
     q = tier == "quick"
     return [
-        Campaign("year_ends", "hyp", evaluate=eval_pair, strategy=lambda: pairs(PF), n=1000 if q else 25000, floor_nontrivial=0.2,
+        Campaign("year_ends", "hyp", evaluate=eval_pair, strategy=lambda: pairs(PF), n=2000 if q else 25000, floor_nontrivial=0.2,
                  describe="starts around year ends, leap days and 53-week ISO years"),
         Campaign("uniform", "hyp", evaluate=eval_pair, strategy=lambda: pairs(PF_ANY), n=400 if q else 8000,
                  describe="project start uniform in 2020-2033"),
